@@ -13,3 +13,15 @@ From PcoreV Require Model.Coll.
 Definition coll_check (c : list Coll.op * list Coll.out) : bool :=
   list_eqb Coll.out_eqb (Coll.run (fst c)) (snd c).
 Definition coll_mismatches (cs : list (list Coll.op * list Coll.out)) : list N := failing coll_check cs.
+
+(* The hash key: for a pair of values a, b the bytes px.ToKey returned for each against the model's key
+   (Model/CollKey.v: tokey), and "the same key bytes" against the key equality of the operations' model (Coll.keq)
+   and against equality of the model's keys. *)
+From PcoreV Require Model.CollKey.
+Definition key_check (c : Coll.pv * str) : bool := str_eqb (CollKey.tokey (fst c)) (snd c).
+Definition keypair_check (c : (Coll.pv * str) * (Coll.pv * str)) : bool :=
+  let same := str_eqb (snd (fst c)) (snd (snd c)) in
+  key_check (fst c) && key_check (snd c) &&
+  Bool.eqb (Coll.keq (fst (fst c)) (fst (snd c))) same &&
+  Bool.eqb (CollKey.key_eqb (fst (fst c)) (fst (snd c))) same.
+Definition keypair_mismatches (cs : list ((Coll.pv * str) * (Coll.pv * str))) : list N := failing keypair_check cs.
